@@ -296,48 +296,74 @@ def rule_r4(ctx) -> List[R.Inst]:
 def rule_r5(ctx) -> List[R.Inst]:
     M = ctx.M
     insts = []
-    fn = M.fn(S.SMSET + ".read")
+    from .. import seqexpr as SE
+    fn = M.nfn(S.SMSET + ".read", comps=True)
     file = M.mods[fn.mod].rel
-    loops = [n for n in walk_no_nested(fn.node) if isinstance(n, ast.For)]
+    env = SE.Env(fn.node)
+    # the two token sequences: what is handed to the chart reader and what is handed to the header reader
+    charts_e = meta_e = None
+    for n in walk_no_nested(fn.node):
+        if isinstance(n, ast.Call) and call_name_(n) == "_read_maps":
+            charts_e = next((k.value for k in n.keywords if k.arg == "maps"), n.args[0] if n.args else None)
+        if isinstance(n, ast.Call) and call_name_(n) == "_read_metadata":
+            meta_e = n.args[0] if n.args else next((k.value for k in n.keywords if k.arg in ("lines", "metadata")), None)
+    A = env.of(charts_e) if charts_e is not None else None
+    B = env.of(meta_e) if meta_e is not None else None
+
+    def complement(f1: str, f2: str) -> bool:
+        try:
+            a, b = ast.parse(f1, mode="eval").body, ast.parse(f2, mode="eval").body
+        except SyntaxError:
+            return False
+        if isinstance(b, ast.UnaryOp) and isinstance(b.op, ast.Not):
+            return unparse(b.operand) == unparse(a)
+        if isinstance(a, ast.UnaryOp) and isinstance(a.op, ast.Not):
+            return unparse(a.operand) == unparse(b)
+        if isinstance(a, ast.Compare) and isinstance(b, ast.Compare) and len(a.ops) == len(b.ops) == 1 and \
+                unparse(a.left) == unparse(b.left) and unparse(a.comparators[0]) == unparse(b.comparators[0]):
+            pairs = {(ast.In, ast.NotIn), (ast.NotIn, ast.In), (ast.Eq, ast.NotEq), (ast.NotEq, ast.Eq), (ast.Lt, ast.GtE), (ast.GtE, ast.Lt),
+                     (ast.Gt, ast.LtE), (ast.LtE, ast.Gt)}
+            return (type(a.ops[0]), type(b.ops[0])) in pairs
+        return False
+
     good = False
-    for lp in loops:
-        if len(lp.body) == 1 and isinstance(lp.body[0], ast.If) and lp.body[0].orelse:
-            i = lp.body[0]
-            a = [x for x in ast.walk(ast.Module(body=i.body, type_ignores=[])) if isinstance(x, ast.Call) and
-                 isinstance(x.func, ast.Attribute) and x.func.attr == "append"]
-            b = [x for x in ast.walk(ast.Module(body=i.orelse, type_ignores=[])) if isinstance(x, ast.Call) and
-                 isinstance(x.func, ast.Attribute) and x.func.attr == "append"]
-            if len(a) == 1 and len(b) == 1 and "#NOTES" in unparse(i.test) and unparse(a[0].args[0]) == unparse(lp.target) \
-                    and unparse(b[0].args[0]) == unparse(lp.target) and not any(
-                    isinstance(x, (ast.Continue, ast.Break)) for x in ast.walk(lp)):
-                good = True
-                # the chart-token predicate: "the token contains the tag" (tokens may be led by comments and chart
-                # header fields are free text, so prefix / last-'#' tests are different predicates)
-                t = i.test
-                tok = unparse(lp.target)
-                contains = (isinstance(t, ast.Compare) and isinstance(t.ops[0], ast.In) and C.const_str(t.left) == "#NOTES:" and
-                            unparse(t.comparators[0]) == tok) or \
-                           (isinstance(t, ast.Compare) and isinstance(t.left, ast.Call) and call_name_(t.left) == "find" and
-                            unparse(t.left.func.value) == tok and t.left.args and C.const_str(t.left.args[0]) == "#NOTES:") or \
-                           (isinstance(t, ast.Call) and call_name_(t) == "count" and unparse(t.func.value) == tok)
-                prefix = any(isinstance(x, ast.Call) and call_name_(x) in ("startswith", "endswith", "match", "fullmatch")
-                             for x in ast.walk(t))
-                if not contains and prefix:
-                    insts.append(R.viol("C02.R5", "chart-token-predicate", file, t.lineno,
-                                        f"chart tokens are selected by a positional test ('{unparse(t)}'): a chart token whose tag is "
-                                        f"not at the tested position (leading '//' comment lines, or a '#' inside a free-text header "
-                                        f"field such as the description) is treated as metadata and the chart is silently dropped",
-                                        construct=unparse(t)))
-                elif not contains:
-                    insts.append(R.undec("C02.R5", "chart-token-predicate", file, t.lineno,
-                                         f"chart tokens are selected by '{unparse(t)}'; only the containment test "
-                                         f"'\"#NOTES:\" in token' (or find/count) is known to select every chart token"))
-                else:
-                    insts.append(R.ok("C02.R5", "chart-token-predicate", file, t.lineno, idiom="'#NOTES:' in token"))
-    insts.append(R.ok("C02.R5", "token-partition", file, fn.node.lineno, idiom="every token goes to charts or to metadata") if good else
-                 R.viol("C02.R5", "token-partition", file, fn.node.lineno,
-                        "tokens of the file are not partitioned exhaustively into charts and metadata",
-                        construct="SMMapSet.read partition"))
+    if A and B and len(A) == 1 and len(B) == 1:
+        a, b = next(iter(A)), next(iter(B))
+        if a.base == b.base and a.elt == "_" and b.elt == "_" and len(a.filters) == 1 and len(b.filters) == 1 and \
+                complement(a.filters[0], b.filters[0]):
+            good = True
+            t = ast.parse(a.filters[0], mode="eval").body
+            tok = "_"
+            contains = (isinstance(t, ast.Compare) and isinstance(t.ops[0], ast.In) and C.const_str(t.left) == "#NOTES:" and
+                        unparse(t.comparators[0]) == tok) or \
+                       (isinstance(t, ast.Compare) and isinstance(t.left, ast.Call) and call_name_(t.left) == "find" and
+                        unparse(t.left.func.value) == tok and t.left.args and C.const_str(t.left.args[0]) == "#NOTES:") or \
+                       (isinstance(t, ast.Call) and call_name_(t) == "count" and unparse(t.func.value) == tok)
+            prefix = any(isinstance(x, ast.Call) and call_name_(x) in ("startswith", "endswith", "match", "fullmatch")
+                         for x in ast.walk(t))
+            tl = getattr(charts_e, "lineno", fn.node.lineno)
+            ttxt = a.filters[0].replace("_", "token")
+            if not contains and prefix:
+                insts.append(R.viol("C02.R5", "chart-token-predicate", file, tl,
+                                    f"chart tokens are selected by a positional test ('{ttxt}'): a chart token whose tag is "
+                                    f"not at the tested position (leading '//' comment lines, or a '#' inside a free-text header "
+                                    f"field such as the description) is treated as metadata and the chart is silently dropped",
+                                    construct=ttxt))
+            elif not contains:
+                insts.append(R.undec("C02.R5", "chart-token-predicate", file, tl,
+                                     f"chart tokens are selected by '{ttxt}'; only the containment test "
+                                     f"'\"#NOTES:\" in token' (or find/count) is known to select every chart token"))
+            else:
+                insts.append(R.ok("C02.R5", "chart-token-predicate", file, tl, idiom="'#NOTES:' in token"))
+    if good:
+        insts.append(R.ok("C02.R5", "token-partition", file, fn.node.lineno, idiom="every token goes to charts or to metadata"))
+    elif A is None or B is None:
+        insts.append(R.undec("C02.R5", "token-partition", file, fn.node.lineno,
+                             "the token sequences handed to the chart reader and the header reader are not recognised sequence expressions"))
+    else:
+        insts.append(R.viol("C02.R5", "token-partition", file, fn.node.lineno,
+                            "tokens of the file are not partitioned exhaustively into charts and metadata",
+                            construct=f"SMMapSet.read partition: charts {sorted(map(str, A))} / headers {sorted(map(str, B))}"))
     rm = M.fn(S.SMSET + "._read_maps")
     comps = [n for n in ast.walk(rm.node) if isinstance(n, ast.ListComp)]
     good = False
@@ -368,7 +394,8 @@ def rule_r7(ctx) -> List[R.Inst]:
     fn = M.nfn(READ_NOTES)
     file = M.mods[fn.mod].rel
     insts = []
-    nested = [n for n in fn.node.body if isinstance(n, ast.FunctionDef)]
+    from ..normal import loopify_return_comp
+    nested = [loopify_return_comp(n) for n in fn.node.body if isinstance(n, ast.FunctionDef)]
     for nf in nested:
         if not nf.args.args:
             continue
